@@ -52,6 +52,14 @@ theorem too_few_steps_raises (c : Call) (hn : c.rule.n ≠ 0) (hc : c.cls ≠ .h
   simp only [hg, hc', Bool.not_false, Bool.and_self, if_true]
   split_ifs <;> rfl
 
+/-- no step at all (zero steps are dropped by the generators): every class raises, the Hessian included, whose rule checks no count -/
+theorem no_steps_raises (c : Call) (hn : c.rule.n ≠ 0) (h0 : c.numSteps = 0) : c.outcome = .valueError := by
+  unfold Call.outcome
+  simp only [hn, if_false]
+  have hg : guard_some_steps c.numSteps = false := by simp [guard_some_steps, h0]
+  simp only [hg]
+  split_ifs <;> first | rfl | simp_all
+
 /-- a function that does not return one value per input element -/
 theorem wrong_size_raises (c : Call) (hs : c.fdelSize ≠ c.hSize) : c.outcome = .valueError := by
   unfold Call.outcome
@@ -70,8 +78,9 @@ theorem valid_call_returns (c : Call) (hn : c.rule.n ≠ 0) (hmc : c.method = .m
     cases hmeth : c.method <;> simp
     have := hmc hmeth
     omega
+  have h0 : 0 < c.numSteps := by omega
   unfold Call.outcome
-  simp [hn, hg, guard_real_x, guard_real_fx, hx, hf, guard_vstack, guard_vstack_jacobian, hs, guard_apply, hst]
+  simp [hn, hg, guard_real_x, guard_real_fx, hx, hf, guard_vstack, guard_vstack_jacobian, hs, guard_apply, hst, guard_some_steps, h0]
   cases c.cls <;> simp
 
 theorem directionaldiff_mismatch_raises (a b : ℕ) (h : a ≠ b) (inner : Outcome) :
